@@ -140,7 +140,7 @@ def _work(st, batch):
 def run(res):
     thorough = res.tier == "thorough"
     bins = core.build([VARIANT])
-    items = fstring_programs(res.seed, 40000 if thorough else 15000)
+    items = fstring_programs(res.seed, 250000 if thorough else 15000)
     for i, lit in enumerate(DIRECTED):
         for pre, post in (("x = ", "\n"), ("é = [", ",\n]\n"), ("def f():\n\treturn ", "\n")):
             items.append(("directed:%d" % i, pre + lit + post))
